@@ -19,7 +19,7 @@ import numpy as np
 from harness.common import enc, Z, kids, tag, to_zs, is_err, err_code
 
 PROP = 'C17'
-GENERATORS = []
+GENERATORS = ['gen_findcid']
 TRUSTED = [
     'hand model coq/C17/Model.v of Data.add_component / add_component_link / remove_component (+ cascade) / reorder_components / '
     'update_id / ComponentID.label / coords setter / update_components / update_values_from_data / DataCollection.append+remove and of '
